@@ -21,7 +21,7 @@ def ctext(t):
     """a text as list N; long texts as a concatenation of chunks (a 40 000 element list literal is too deep for the parser)"""
     if len(t) <= 400:
         return common.ctext(t)
-    return '(concat %s)' % clist([common.ctext(t[i:i + 400]) for i in range(0, len(t), 400)])
+    return '(@List.concat N %s)' % clist([common.ctext(t[i:i + 400]) for i in range(0, len(t), 400)])
 import impl
 
 EXPLANATION = ('Theorems over the Gallina model of the string-source classes (Props/C14.v): every view (as_str, as_lines, '
@@ -147,6 +147,8 @@ def gen_progx(rng, exotic, small=False):
     if r == 0:
         return 'progx', (variant, gen_text(rng, exotic, ml, 3), None)
     sin = (rng.choice(['str', 'file']), gen_text(rng, exotic, ml, 3))
+    if rng.chance(0.4):  # two stdin parts (the first one through a program symbol)
+        sin = (sin, (rng.choice(['str', 'file']), gen_text(rng, exotic, 2, 3)))
     return 'progx', (variant, None if r == 1 else gen_text(rng, exotic, 2, 3), sin)
 
 
@@ -241,6 +243,13 @@ PROG_VARIANTS = {'out': ('-stdout-from ', 'PFd', False, False), 'outi': ('-stdou
                  'erri': ('-stderr-from -ignore-exit-code ', 'PFd', True, True), 'err': ('-stderr-from ', 'PFile', True, False)}
 
 
+def stdin_parts(sin):
+    """the stdin parts of a progx source: None | (kind, text) | ((kind, text), (kind, text))"""
+    if sin is None:
+        return []
+    return [tuple(sin)] if isinstance(sin[0], str) else [tuple(q) for q in sin]
+
+
 def base_coq(kind, text):
     if kind == 'concat':  # text = ((kind, text, trans), ...): any number of parts
         return '(SConcat cs0 %s)' % clist(['(build %s %s)' % (base_coq(k, t), trans_coq(tr)) for k, t, tr in text])
@@ -252,8 +261,9 @@ def base_coq(kind, text):
         return '(SProg PFd (g_const %s) cs0 [])' % ctext(text)
     if kind == 'progx':  # text = (variant, text printed by the program or None, stdin part (kind, text) or None)
         v, ft, sin = text
-        g = 'g_cat' if ft is None else ('(g_const %s)' % ctext(ft) if sin is None else '(g_prefix %s)' % ctext(ft))
-        return '(SProg %s %s cs0 %s)' % (PROG_VARIANTS[v][1], g, clist([base_coq(*sin)]) if sin is not None else '(@nil src)')
+        sins = stdin_parts(sin)
+        g = 'g_cat' if ft is None else ('(g_const %s)' % ctext(ft) if not sins else '(g_prefix %s)' % ctext(ft))
+        return '(SProg %s %s cs0 %s)' % (PROG_VARIANTS[v][1], g, clist([base_coq(*q) for q in sins]) if sins else '(@nil src)')
     if kind == 'runin':  # text = ((model kind, model text), (stdin kind, stdin text)): MODEL -transformed-by run % cat -stdin S
         m, sin = text
         return '(SRun g_cat cs0 (SConcat cs0 [%s; %s]))' % (base_coq(*sin), base_coq(*m))
@@ -306,6 +316,7 @@ class World:
         self.ss_parser = ss_parse.default_parser_for(True)
         self.sm = parse_string_matcher
         self.n = 0
+        self.symdefs = {}
 
     def close(self):
         shutil.rmtree(self.root, ignore_errors=True)
@@ -326,6 +337,7 @@ class World:
     def clear_files(self):
         for f in self.home.iterdir():
             f.unlink()
+        self.symdefs = {}
 
     def source_syntax(self, kind, text, trans, here_doc=False):
         """(exactly syntax of the string source, None)"""
@@ -337,15 +349,25 @@ class World:
             s = '-stdout-from % cat ' + str(self.put_file(text)) + '\n'
         elif kind == 'progx':
             v, ft, sin = text
+            sins = stdin_parts(sin)
             opt, _, to_stderr, ignore = PROG_VARIANTS[v]
-            cmd = 'cat' + ('' if ft is None else ' ' + str(self.put_file(ft))) + (' -' if sin is not None and ft is not None else '')
+            cmd = 'cat' + ('' if ft is None else ' ' + str(self.put_file(ft))) + (' -' if sins and ft is not None else '')
             if to_stderr:
                 cmd += ' >&2'
             if ignore:
                 cmd += '; exit 3'
-            s = opt + '$ ' + cmd + '\n'  # `$`: a shell command line (`%` runs a program without a shell)
-            if sin is not None:  # parentheses: a following -transformed-by belongs to the program, not to the stdin source
-                s += '-stdin ( ' + nl(self.source_syntax(sin[0], sin[1], None)[0]) + ')\n'
+            # `$`: a shell command line (`%` runs a program without a shell).  The stdin source is parenthesised:
+            # a following -transformed-by then belongs to the program, not to the stdin source.
+            def stdin_opt(q):
+                return '-stdin ( ' + nl(self.source_syntax(q[0], q[1], None)[0]) + ')\n'
+            if len(sins) == 2:
+                # two stdin parts: the first comes with the definition of a program symbol, the second with the reference
+                self.n += 1
+                name = 'PROG%d' % self.n
+                self.symdefs[name] = '$ ' + cmd + '\n' + stdin_opt(sins[0])
+                s = opt + '@ ' + name + '\n' + stdin_opt(sins[1])
+            else:
+                s = opt + '$ ' + cmd + '\n' + ''.join(stdin_opt(q) for q in sins)
         elif kind == 'runin':
             m, sin = text
             s = nl(self.source_syntax(m[0], m[1], None)[0]) + '-transformed-by run % cat\n-stdin ( ' + \
@@ -356,10 +378,21 @@ class World:
             s += '-transformed-by ' + trans_src(trans)
         return s, None
 
+    def symbols(self):
+        """symbol table with the program symbols the rendered syntax refers to"""
+        from exactly_lib.section_document.parse_source import ParseSource
+        from exactly_lib.impls.types.program.parse import parse_program
+        from exactly_lib.util.symbol_table import SymbolTable
+        from exactly_lib.symbol.sdv_structure import SymbolContainer
+        from exactly_lib.symbol.value_type import ValueType
+        parser = parse_program.program_parser(must_be_on_current_line=False)
+        return SymbolTable({name: SymbolContainer(parser.parse(ParseSource(src)), ValueType.PROGRAM, None)
+                            for name, src in self.symdefs.items()})
+
     def build_source(self, syntax, env):
         from exactly_lib.section_document.parse_source import ParseSource
         sdv = self.ss_parser.parse(ParseSource(syntax))
-        return impl.primitive_of(sdv, env, self.tcds)
+        return impl.primitive_of(sdv, env, self.tcds, self.symbols())
 
 
 def do_access(x, a):
@@ -524,7 +557,7 @@ def cobool(v):
 
 def apply_matcher(world, env, matcher_syntax, source_syntax):
     from exactly_lib.section_document.parse_source import ParseSource
-    m = impl.primitive_of(world.sm.parsers().full.parse(ParseSource(matcher_syntax)), env, world.tcds)
+    m = impl.primitive_of(world.sm.parsers().full.parse(ParseSource(matcher_syntax)), env, world.tcds, world.symbols())
     x = world.build_source(source_syntax, env)
     try:
         return bool(m.matches_w_trace(x).value)
@@ -578,7 +611,7 @@ def leaf_texts(kind, text):
     if kind == 'concat':
         return [t for k, x, _ in text for t in leaf_texts(k, x)]
     if kind == 'progx':
-        return ([text[1]] if text[1] is not None else []) + (leaf_texts(*text[2]) if text[2] is not None else [])
+        return ([text[1]] if text[1] is not None else []) + [t for q in stdin_parts(text[2]) for t in leaf_texts(*q)]
     if kind == 'runin':
         return leaf_texts(*text[0]) + leaf_texts(*text[1])
     return [text]
@@ -661,7 +694,7 @@ def decorrelated(ctx):
 def run(ctx, res):
     rng = decorrelated(ctx)
     n_acc, n_ver, n_kinds = (2500, 700, 120) if ctx.quick else (30000, 8000, 1500)
-    n_big_pct = 1  # per cent of the access cases with a text of 9-40 KiB (quick: ~25, thorough: ~300)
+    n_big_permille = 7 if ctx.quick else 3  # access cases with a text of 9-40 KiB (quick: ~12, thorough: ~60)
     world = World(ctx.work)
     extra = extra_to_read()
     res.rule = ('(1) access cases: string sources built by the real parser: {literal / here-document, -contents-of FILE, '
@@ -718,7 +751,7 @@ def run(ctx, res):
                     text = ((rng.choice(BASE_KINDS), gen_text(rng, exotic, 3, 3)), (rng.choice(['str', 'file']), gen_text(rng, exotic, 2, 3)))
                     trans = None
                     buff = gen_buff(rng, whole_text(kind, text))
-                elif r < 32 + n_big_pct:  # a text larger than the 8 KiB buffers of the io layer
+                elif rng.below(1000) < n_big_permille:  # a text larger than the 8 KiB buffers of the io layer
                     kind = rng.choice(BASE_KINDS)
                     text = gen_big_text(rng)
                     trans = rng.choice([None, ('atom', ('id',)), ('atom', ('filter', ('true',))), ('atom', ('replace', 'abb', False)),
@@ -787,11 +820,20 @@ def run(ctx, res):
     finally:
         world.close()
     res.evaluations = len(cases)
-    res.samples = [cases[k]['json'] for k in (0, 12, 20, len(CORPUS_ACCESS) + n_acc + 12, len(cases) - 2) if k < len(cases)]
+    res.samples = [cases[k]['json'] for k in (0, 12, 20, len(CORPUS_ACCESS) + n_acc + 12, len(cases) - 2)
+                   if k < len(cases) and len(cases[k]['term']) < 5000]
     res.extra['extra_to_read_for_error_messages'] = extra
+    # texts larger than the io buffers are evaluated in shards of their own (few cases, long literals)
+    order = [i for i, c in enumerate(cases) if len(c['term']) <= 60000] + [i for i, c in enumerate(cases) if len(c['term']) > 60000]
+    n_small = sum(1 for c in cases if len(c['term']) <= 60000)
+    cases = [cases[i] for i in order]
     cb, pb, errs = common.run_shards('C14', ['Lib.Text', 'Model.StrSrc', 'Spec.C14'], 'check_case',
-                                     [c['term'] for c in cases], shard_size=250)
-    res.errors += errs
+                                     [c['term'] for c in cases[:n_small]], shard_size=250)
+    cb2, pb2, errs2 = common.run_shards('C14', ['Lib.Text', 'Model.StrSrc', 'Spec.C14'], 'check_case',
+                                        [c['term'] for c in cases[n_small:]], shard_size=2, tag='big') if n_small < len(cases) \
+        else ([], [], [])
+    cb, pb = cb + [n_small + i for i in cb2], pb + [n_small + i for i in pb2]
+    res.errors += errs + errs2
     # Inputs satisfying the predicate of an open known finding are outside the guard of the theorems: the property is
     # already recorded as failing there, so a deviation of the model on such an input is reported in the evidence but is
     # not an alarm (a harmless change of an internal policy may move WHICH view shows the known deviation).
